@@ -3,6 +3,8 @@
 From Coq Require Import Lia ZifyBool ZifyN ZifyNat.
 From FH Require Import Model.Base Model.Pipe.
 Open Scope N_scope.
+(* the proofs do not depend on the value of the capacity *)
+Local Opaque chan_cap.
 
 (* ---------- generic: invariants of run ---------- *)
 Lemma run_app s tr1 tr2 : run s (tr1 ++ tr2) = match run s tr1 with Some s' => run s' tr2 | None => None end.
@@ -59,7 +61,7 @@ Lemma inv_init : inv dinit.
 Proof.
   constructor; cbn; try easy; try (intros; discriminate).
   all: try (intros [n [rem H]]; discriminate).
-  all: try (unfold chan_cap; lia).
+  all: try lia.
 Qed.
 
 (* ---------- the reader's local computations ---------- *)
@@ -110,7 +112,7 @@ Ltac step_cases H :=
 Ltac easy_field :=
   first [ assumption | reflexivity | discriminate | congruence | lia
         | (intros; congruence) | (intros; discriminate)
-        | (intros [? [? ?]]; congruence) | (unfold chan_cap in *; lia) ].
+        | (intros [? [? ?]]; congruence) ].
 Ltac norm :=
   unfold set_wp, set_rp, w_finish, w_send, r_finish, in_flight in *; cbn [chan cur stopped wdl rdl wp rp hist] in *;
   repeat match goal with H : wp _ = _ |- _ => rewrite H in * end;
@@ -184,7 +186,7 @@ Qed.
 
 
 Lemma has_room_cap s p : has_room s = true -> lenN (chan s ++ [p]) <= chan_cap.
-Proof. unfold has_room, chan_cap, lenN. rewrite app_length. cbn [length]. intros H. apply N.ltb_lt in H. lia. Qed.
+Proof. unfold has_room, lenN. rewrite app_length. cbn [length]. intros H. apply N.ltb_lt in H. lia. Qed.
 
 Lemma inv_step s l s' : inv s -> step s l = Some s' -> inv s'.
 Proof.
